@@ -4,6 +4,8 @@ mod numeric;
 mod probe2;
 mod probe3;
 mod probe4;
+mod probe5;
+mod probe6;
 use cosmwasm_std::{coin, Coin, Decimal, Uint128};
 use cw_multi_test::Executor;
 use mantra_dex_std::farm_manager as fm;
@@ -273,6 +275,11 @@ fn main() {
     if has("weights") { probe2::weights(); }
     if has("rev") { probe2::reverse_sim(); }
     if has("mint") { probe3::run(); }
+    if which.iter().any(|w| w == "pbfs") { let d: usize = which.iter().filter_map(|x| x.parse().ok()).next().unwrap_or(2); probe5::run(d, which.iter().any(|w| w == "zerofee")); }
+    if which.iter().any(|w| w == "c13cp") { probe6::c13_cp(); }
+    if which.iter().any(|w| w == "c18") { probe6::c18(); }
+    if which.iter().any(|w| w == "c16") { probe6::c16(); }
+    if which.iter().any(|w| w == "c09") { probe6::c09(); }
     if which.iter().any(|w| w == "partest") { probe4::partest(); }
     if which.iter().any(|w| w == "bfs") { let d: usize = which.iter().filter_map(|x| x.parse().ok()).next().unwrap_or(3); probe4::run(d); }
     let _ = Uint128::zero();
